@@ -112,6 +112,24 @@ theorem first_init_error (a b : Fac) (cfg w n : Nat) (hn : (facDen (.andThen a b
       simp [hb, joinDen, hlt]
   · intro pa sa pb sb ha hb; simp [ha, hb, joinDen]
 
+/-- `apply(TransformExt::map_init_err(t, m), factory)` (transform_err.rs): the inner service is built
+first; an init error of the *transform* is mapped by `m` exactly once, an init error of the inner
+factory is passed on unmapped, and a successful transform is not touched -/
+theorem transform_init_error_mapped (t tp m : Nat) (a : Fac) (cfg w n : Nat)
+    (hn : (facDen (.transform t tp false (some m) a) cfg).1 < n) :
+    (∀ p s, facDen a cfg = (p, .ok s) →
+        (facRun n (.transform t tp false (some m) a) cfg w).1 = some (.err (mapFn m (initErr t 0))) ∧
+        (facRun n (.transform t tp false (some m) a) cfg w).2.2 = w + (p + tp) ∧
+        (facDen (.transform t tp true (some m) a) cfg).2 = .ok (.mw s t)) ∧
+    (∀ p e, facDen a cfg = (p, .err e) →
+        (facRun n (.transform t tp false (some m) a) cfg w).1 = some (.err e) ∧
+        (facRun n (.transform t tp false (some m) a) cfg w).2.2 = w + p) := by
+  have h := fac_drive_eq_eval (.transform t tp false (some m) a) cfg w n hn
+  rw [h.1, h.2]
+  refine ⟨?_, ?_⟩
+  · intro p s ha; simp [facDen, ha, transRes, mapIErr]
+  · intro p e ha; simp [facDen, ha]
+
 /-! ## Non-vacuity: the hypotheses are met by non-trivial trees and scripts -/
 
 /-- `(a.map(21)).and_then(b.map_err(22))`, `a` pending twice, boxed on top -/
@@ -127,7 +145,7 @@ example : (refLog exSvc 3 0).length = 9 := by decide
 /-- both halves fail; the right one earlier -/
 def exFac : Fac :=
   .andThen (.mapInitErr (.leaf 60 2 false true (.leaf 0 0 true 0 true)) 23)
-           (.transform 31 1 true (.mapConfig (.leaf 61 1 false true (.leaf 1 0 true 0 true)) 24))
+           (.transform 31 1 true none (.mapConfig (.leaf 61 1 false true (.leaf 1 0 true 0 true)) 24))
 
 example : facDen exFac 5 = (1, .err (initErr 61 (mapFn 24 5))) := by decide
 example : (facRun 10 exFac 5 0).1 = some (.err (initErr 61 (mapFn 24 5))) :=
@@ -137,5 +155,12 @@ example : facLeaves exFac 5 = [(60, 5), (61, mapFn 24 5)] := by decide
 /-- apply_cfg_factory over a service that needs two readiness polls -/
 def exFac2 : Fac := .applyCfgFac (.map (.leaf 60 1 true true (.leaf 0 1 true 2 true)) 21) 52 1 true
 example : (facDen exFac2 7).1 = 4 := by decide
+
+/-- a failing transform whose init error is mapped, over a factory that needs one poll -/
+def exFac3 : Fac := .transform 31 2 false (some 23) (.rc (.leaf 60 1 true true (.wrap .refMut (.leaf 0 0 true 0 true))))
+example : facDen exFac3 4 = (3, .err (mapFn 23 (initErr 31 0))) := by decide
+example : (facRun 10 exFac3 4 0).1 = some (.err (mapFn 23 (initErr 31 0))) :=
+  ((transform_init_error_mapped 31 2 23 (.rc (.leaf 60 1 true true (.wrap .refMut (.leaf 0 0 true 0 true)))) 4 0 10
+    (by decide)).1 1 (.wrap .refMut (.leaf 0 0 true 0 true)) (by decide)).1
 
 end ActixNet.C11
